@@ -483,7 +483,9 @@ func main() {
 			}
 		}
 		vs := []simapi.Decision{fails[i%3]}
-		if hasFail && *variants == "all" {
+		if hasFail && *variants != "" {
+			// a failure is delivered in every form: an error value, a Conflict (which code may be tempted to swallow
+			// or retry) and a dead process - rotating them left (call, form) pairs to chance
 			vs = fails
 		}
 		for _, v := range vs {
